@@ -9,7 +9,7 @@ from ..cfg import own_exprs
 from ..facts import Fact, atoms, enumerate_paths
 from ..report import Ctx
 from ..suspend import live_iterations, node_suspension
-from .common import always_before, guard, need, node_of, stmts_matching
+from .common import always_before, enclosing_stmt, guard, need, node_of, stmts_matching
 
 LSM = "happysimulator/components/storage/lsm_tree.py"
 MEMT = "happysimulator/components/storage/memtable.py"
@@ -218,15 +218,17 @@ def rule_btree_and_kv(ctx: Ctx) -> None:
     n_route = 0
     for m in bt.methods.values():
         mf = ctx.flow(m)
-        for st in walk_stmts(m.node.body):
-            if isinstance(st, ast.Assign) and isinstance(st.value, ast.Call) and path_of(st.value.func) in ("bisect.bisect_left", "bisect.bisect_right", "bisect.bisect") \
-                    and len(st.value.args) == 2 and (unparse(st.value.args[0]).endswith(".keys")):
-                nd = path_of(st.value.args[0])[: -len(".keys")]
+        for bc in calls_in(m.node):
+            # any bisect over `<node>.keys` with the looked-up key, wherever its result goes (a local, or straight into `children[...]`)
+            if path_of(bc.func) in ("bisect.bisect_left", "bisect.bisect_right", "bisect.bisect") and len(bc.args) == 2 and (unparse(bc.args[0]).endswith(".keys")) \
+                    and path_of(bc.args[0]) is not None:
+                st = enclosing_stmt(m, bc)
+                nd = path_of(bc.args[0])[: -len(".keys")]
                 sn = node_of(mf.cfg, st)
                 leaf = mf.holds_at(sn, Fact("truthy", f"{nd}.leaf"))
                 inner = mf.holds_at(sn, Fact("falsy", f"{nd}.leaf"))
-                fnm = path_of(st.value.func).split(".")[-1]
-                if m.name in ("_scan_node",) or path_of(st.value.args[1]) not in ("key",):
+                fnm = path_of(bc.func).split(".")[-1]
+                if m.name in ("_scan_node",) or path_of(bc.args[1]) not in ("key",):
                     continue
                 n_route += 1
                 want = "bisect_left" if leaf else "bisect_right" if inner else None
